@@ -3,6 +3,7 @@ package trie
 import (
 	"fmt"
 	"math/bits"
+	"sort"
 
 	proto "github.com/golang/protobuf/proto"
 	slim "github.com/openacid/slim/trie"
@@ -14,6 +15,13 @@ import (
 // innersShape inspects a built trie: total bit length of the label bitmaps and
 // the kind of the last inner node (b = 257-bit, n = 17-bit, s = short).
 func InnersShape(st *slim.SlimTrie) (bitsLen int, last byte, ok bool) {
+	bitsLen, last, _, ok = InnersShape2(st)
+	return
+}
+
+// InnersShape2 also reports whether the very last bit of the label bitmaps is set (the last inner node has
+// its highest label: half-byte 0xf, byte 0xff, or the top bit of a short code).
+func InnersShape2(st *slim.SlimTrie) (bitsLen int, last byte, lastBit bool, ok bool) {
 	buf, err := st.Marshal()
 	if err != nil || len(buf) < 32 {
 		return
@@ -46,7 +54,10 @@ func InnersShape(st *slim.SlimTrie) (bitsLen int, last byte, ok bool) {
 	} else if inner > 0 && inner <= big {
 		last = 'b'
 	}
-	return bitsLen, last, inner > 0
+	if m.Inners != nil && bitsLen > 0 && (bitsLen-1)>>6 < len(m.Inners.Words) {
+		lastBit = m.Inners.Words[(bitsLen-1)>>6]>>(uint(bitsLen-1)&63)&1 == 1
+	}
+	return bitsLen, last, lastBit, inner > 0
 }
 
 // boundaryCases searches growing prefixes of regular key lists for tries whose
@@ -61,10 +72,27 @@ func boundaryCases(c *lp.Ctx, budget int, each func(cs *Case)) {
 func boundaryCasesF(c *lp.Ctx, budget int, flagsFn func() string, each func(cs *Case)) {
 	found := map[string]int{}
 	tries := 0
-	for found["0s"]+found["0n"]+found["0b"] < budget && tries < 40*budget {
+	for (found["0s"]+found["0n"]+found["0b"] < budget || found["0nT"]+found["0bT"] < 2) && tries < 40*budget {
 		tries++
 		var ks gen.KeySet
-		switch c.Rng.Intn(4) {
+		switch c.Rng.Intn(5) {
+		case 4:
+			// many half-bytes 0xf and bytes 0xff: the last inner node often has its highest label
+			m := map[string]struct{}{}
+			al := []byte{0x6e, 0x6f, 0xff, 0x0f, 0x6d}
+			for len(m) < 200 {
+				b := make([]byte, 1+c.Rng.Intn(5))
+				for i := range b {
+					b[i] = al[c.Rng.Intn(len(al))]
+				}
+				m[string(b)] = struct{}{}
+			}
+			var keys []string
+			for k := range m {
+				keys = append(keys, k)
+			}
+			sort.Strings(keys)
+			ks = gen.KeySet{Keys: keys, Class: "high-labels"}
 		case 0:
 			ks = gen.Regular(c.Rng, 400)
 		case 1:
@@ -89,11 +117,21 @@ func boundaryCasesF(c *lp.Ctx, budget int, flagsFn func() string, each func(cs *
 			if a := lp.Exec(cs.Line()); a != "ok" {
 				continue
 			}
-			bl, last, ok := InnersShape(S.St)
+			bl, last, lastBit, ok := InnersShape2(S.St)
 			if !ok {
 				continue
 			}
 			key := fmt.Sprintf("%d%c", bl%64, last)
+			if bl%64 == 0 && lastBit && last != 's' && found["0"+string(last)+"T"] < (budget+2)/3 {
+				// a word-aligned bitmap whose very last bit is set: always wanted, counted apart
+				found["0"+string(last)+"T"]++
+				c.Case(cs.Key(), true)
+				if build(c, cs) {
+					c.Hit(fmt.Sprintf("boundary:inners-bits%%64=0,last=%c,last-bit-set", last))
+					each(cs)
+				}
+				continue
+			}
 			want := bl%64 == 0 || ((bl%64 == 63 || bl%64 == 1) && c.Rng.Intn(8) == 0)
 			if !want || found[key] > budget {
 				continue
